@@ -143,6 +143,13 @@ func (vc *VC) script(o *Obligation) string {
 		b.WriteString(d)
 		b.WriteByte('\n')
 	}
+	if vc.needNeedsWrite {
+		b.WriteString("(declare-fun needswrite (Fn) Bool)\n")
+		for _, a := range vc.needsWriteAxioms {
+			b.WriteString(a)
+			b.WriteByte('\n')
+		}
+	}
 	for ref, k := range vc.bigConsts {
 		// package-level big.Int constants (initialised by big.NewInt(k) in init and never written)
 		for _, d := range vc.constDecls {
